@@ -187,7 +187,7 @@ class C01(UdpCheck):
     pid = "C01"
     level = "fault_enumeration"
     budget = {"quick": 75, "thorough": 800}
-    ncases = {"quick": 160, "thorough": 6000}
+    ncases = {"quick": 800, "thorough": 20000}
     per_run_wall_s = 240
     rule = ("case = honest connection history (1-2 clients, all sizes and retry modes, loss/dup/delay) + injection points "
             "sampled over it (before any key, between hello and challenge, right after promotion, mid fragment train, with "
